@@ -186,6 +186,7 @@ Proof.
   intros HW. unfold symlink_op. destruct (resolve env m l) as [lp|e]; [|exact HW].
   destruct (if is_absolute t then _ else _) as [t'|e]; [|exact HW].
   destruct (resolve env m t') as [tp|e]; [|exact HW].
+  case_bool_decide; [exact HW|].
   destruct lp as [|b d]; [exact HW|]. apply add_wf; [exact HW | apply fresh_new_link].
 Qed.
 
@@ -207,8 +208,8 @@ Qed.
 
 Lemma set_cwd_wf env m s : WF m → WF (set_cwd_op env m s).1.
 Proof.
-  intros HW. unfold set_cwd_op. repeat case_match; cbn [fst]; try exact HW.
-  eapply WF_ext; [| | |exact HW]; done.
+  intros HW. unfold set_cwd_op. repeat case_match; cbn [fst]; try exact HW;
+    (eapply WF_ext; [| | |exact HW]; done).
 Qed.
 
 (* ---- P3: unlinking a leaf: out of its parent's listing, out of the data map, out of the entries ---- *)
@@ -290,6 +291,7 @@ Proof. by destruct m. Qed.
 Lemma remove_wf env m s : WF m → WF (remove_op env m s).1.
 Proof.
   intros HW. unfold remove_op. destruct (resolve env m s) as [p|e]; [|exact HW].
+  destruct (bool_decide (is_Some (m_ents m !! p))) eqn:Hex; cbn [negb]; [|exact HW].
   destruct (match m_ents m !! p with Some e => _ | None => false end) eqn:Hnonempty; [exact HW|].
   destruct p as [|base dir]; [exact HW|].
   destruct (m_ents m !! dir) as [pe|] eqn:Hpe.
@@ -307,16 +309,11 @@ Proof.
       eapply WF_ext; [| | |exact H]; cbn [upd_ents upd_data m_ents m_data m_root]; try done.
       symmetry. apply delete_notin. destruct (m_data m !! (base :: dir)) eqn:Hd; [|done].
       assert (is_Some (m_data m !! (base :: dir))) as Hs by eauto. apply (wf_dat m HW) in Hs as (e0 & H0 & H1 & _). congruence.
-    + (* nothing there: nothing changes *)
-      assert (Hnin : base ∉ files_of pe).
-      { intros Hin. destruct (wf_chl m HW dir pe base Hpe Hin) as [? ?]. congruence. }
-      assert (Hne : dir ≠ base :: dir) by (intros H; apply (f_equal length) in H; simpl in H; lia).
-      cbn [upd_ents m_ents]. rewrite lookup_insert_ne by done. rewrite He.
-      eapply WF_ext; [| | |exact HW]; cbn [upd_ents upd_data m_ents m_data m_root]; try done.
-      rewrite entry_remove_notin by done. rewrite insert_id by done. apply delete_notin. done.
+    + (* nothing there: excluded by the existence check *)
+      exfalso. apply bool_decide_eq_true in Hex. by destruct Hex.
   - cbn [fst]. destruct (m_ents m !! (base :: dir)) as [e|] eqn:He.
     + destruct (wf_par m HW _ _ _ He) as (pe & H1 & _). congruence.
-    + eapply WF_ext; [| | |exact HW]; cbn [upd_ents upd_data m_ents m_data m_root]; try done. by apply delete_notin.
+    + exfalso. apply bool_decide_eq_true in Hex. by destruct Hex.
 Qed.
 
 (* Memfs::remove_all: every iteration of the worklist loop preserves WF *)
